@@ -308,7 +308,7 @@ func (f *FileState) setText(t []byte) {
 	f.Text = append([]byte(nil), t...)
 	f.File, f.ParseOK = parse(f.Name, f.Text)
 	f.Version++
-	if f.Full != nil && string(f.Full.Text) == string(t) {
+	if f.Full != nil && !f.Full.Unreliable && string(f.Full.Text) == string(t) {
 		f.Rendered = f.Full
 	} else {
 		f.Rendered = nil
